@@ -291,6 +291,10 @@ def gen_tag(r, syntaxes):
       return f"<FONT COLOR={val}>", "</FONT>"
     if j < 0.14:
       return f"<Font Color={val}>", "</font>"
+    if j < 0.24:      # a font tag WITHOUT a colour (face / size only): it encloses text like any tag and changes no colour
+      return r.choice(['<font face="Arial">', "<font size=3>", '<font face="Arial" size="12">']), "</font>"
+    if j < 0.30:      # colour together with other attributes, in either order
+      return r.choice([f'<font face="Arial" color={val}>', f'<font color={val} size="12">']), "</font>"
     return f"<font color={val}>", "</font>"
   syn = r.choice(syntaxes)
   if syn == "brace":
@@ -838,6 +842,9 @@ CANONICAL = [
   "1\n00:00:01,000 --> 00:00:02,000\n<font color=\"#ff0000\">red</font> <font color=\"yellow\">yellow</font><font color=#0000ff80>blue</font>\n",
   "1\n00:00:01,000 --> 00:00:02,000\n<font color=\"red\">r<font color=\"lime\">g</font>r</font>w\n",
   "1\n00:00:01,000 --> 00:00:02,000\n<b>spans\ntwo lines</b>\n",
+  "1\n00:00:01,000 --> 00:00:02,000\n<i><font face=\"Arial\">Narrator:</font> it was a dark night</i> indeed\n",
+  "1\n00:00:01,000 --> 00:00:02,000\n<font color=\"#ff0000\">red <font size=\"3\">still red</font> red again</font> white\n",
+  "1\n00:00:01,000 --> 00:00:02,000\n<font color=\"red\">ALARM: <font color=\"white\">all clear</font> (for now)</font>\n",
   "1\n99:59:59,999 --> 100:00:00,000\nhundred hours\n\n2\n999:59:59,998 --> 999:59:59,999\nlast\n",
   "\n\n7\n012:00:00,001 --> 012:00:00,002\nx\n\n\n\n7\n12:00:01,000 --> 12:00:02,000\ny",
   "1\r\n00:00:01,000 --> 00:00:02,000\r\n<i>a\r\nb</i>\r\nc\r\n\r\n2\r\n00:00:02,000 --> 00:00:03,000\r\nd\r\n",
